@@ -35,6 +35,8 @@ class C16(Prop):
             for log in (True, False):
                 for multi in (True, False):
                     yield {"fmt": fmt, "log": log, "multi": multi}
+        # a Primary-mode map of three haplotypes: merged all_haplotigs outputs and their chromosome list
+        yield {"fmt": "agp", "log": False, "multi": "primary3"}
 
     def generate(self, rng, tier):
         for cfg in self.configs():
@@ -88,11 +90,15 @@ class C16(Prop):
         a.append("--no-clobber" if noclobber else "--clobber")
         return a
 
+    @staticmethod
+    def inputs(ind, cfg):
+        return C.write_inputs_primary3(ind) if cfg["multi"] == "primary3" else C.write_inputs(ind, cfg["multi"])
+
     def baseline(self, cfg):
         ind, out = self.dirs()
         shutil.rmtree(out, ignore_errors=True)
         out.mkdir(parents=True)
-        fa, agp = C.write_inputs(ind, cfg["multi"])
+        fa, agp = self.inputs(ind, cfg)
         r = C.run_cli(self.args(cfg, fa, agp, out, True))
         if r.exit_code != 0:
             raise RuntimeError(f"baseline run failed: {r.exit_code} {r.output[-300:]} {r.exception}")
@@ -113,7 +119,7 @@ class C16(Prop):
         ind, out = self.dirs()
         shutil.rmtree(out, ignore_errors=True)
         out.mkdir(parents=True)
-        fa, agp = C.write_inputs(ind, cfg["multi"])
+        fa, agp = self.inputs(ind, cfg)
         pre = {}
         for name in case["pre"]:
             # some pre-existing files are empty (a zero-length leftover is still an existing file)
